@@ -9,6 +9,12 @@
 (* then write through the destination.  A second, identical execution      *)
 (* follows.  One switch per copy site (TRUE = copy = intended).            *)
 (*                                                                         *)
+(* An issue BORROWS the parameter map of the test that produced it (the    *)
+(* same cells, by design): releasing the issue -- Catch swallowing it, or   *)
+(* the caller handing it back through a Collect helper -- must not write    *)
+(* through the borrowed reference (site "test-params"; switch              *)
+(* ScrubOnRelease, FALSE = intended).                                      *)
+(*                                                                         *)
 (* Invariants: schema- and input-owned cells never change; no destination  *)
 (* is made of schema-owned cells; the second execution sees the same       *)
 (* default as the first.                                                   *)
@@ -24,6 +30,7 @@ EXTENDS Integers, Sequences, FiniteSets, TLC, Json
 CONSTANTS
   Sites,          \* copy sites, e.g. {"slice-default-validate", "slice-default-parse", "prim-default-parse", ...}
   CopyAt,         \* [Sites -> BOOLEAN] : does the site copy (TRUE = intended design)
+  ScrubOnRelease, \* releasing an issue clears the parameter map it borrowed (FALSE = intended design)
   TraceFile, VerdictFile
 
 VARIABLES
@@ -71,7 +78,18 @@ Second ==
   /\ step' = "done"
   /\ UNCHANGED <<cells, schemaVal, inputVal, dest, site, l>>
 
-Next == Exec \/ Mutate \/ Second
+\* site "test-params": the failing test's issue borrows the schema's parameter cells; then it is released
+Borrow ==
+  /\ step = "start" /\ site = "test-params"
+  /\ dest' = <<>> /\ step' = "borrowed"
+  /\ UNCHANGED <<cells, schemaVal, inputVal, site, second, l>>
+Release ==
+  /\ step = "borrowed"
+  /\ cells' = IF ScrubOnRelease THEN [i \in DOMAIN cells |-> IF \E j \in DOMAIN schemaVal : schemaVal[j] = i THEN [cells[i] EXCEPT !.val = 0] ELSE cells[i]] ELSE cells
+  /\ step' = "mutated"
+  /\ UNCHANGED <<schemaVal, inputVal, dest, site, second, l>>
+
+Next == (Exec /\ site # "test-params") \/ Mutate \/ Second \/ Borrow \/ Release
 
 SchemaAndInputImmutable == \A i \in 1..Len(InitCells) : cells[i] = InitCells[i]
 NoSharedMemory == \A i \in DOMAIN dest : cells[dest[i]].owner = "dest"
